@@ -77,8 +77,8 @@ fn label_cut(r: &mut Rng, host: &str) -> String {
     labels[a..b].join(".")
 }
 
-fn gen_location(r: &mut Rng) -> String {
-    let host = r.pick(HOSTS);
+fn gen_location(r: &mut Rng, page: &str) -> String {
+    let host = if r.chance(3, 5) { page } else { r.pick(HOSTS) };
     let name = match r.below(9) {
         0 | 1 => host.to_string(),
         2 | 3 | 4 => label_cut(r, host),
@@ -95,14 +95,14 @@ fn gen_location(r: &mut Rng) -> String {
     format!("{}{}{}", neg, name, ent)
 }
 
-fn gen_rule(r: &mut Rng) -> String {
+fn gen_rule(r: &mut Rng, page: &str) -> String {
     let nloc = match r.below(10) {
         0 => 0,
         1 | 2 | 3 | 4 | 5 => 1,
         6 | 7 => 2,
         _ => 3,
     };
-    let locs: Vec<String> = (0..nloc).map(|_| gen_location(r)).collect();
+    let locs: Vec<String> = (0..nloc).map(|_| gen_location(r, page)).collect();
     let unhide = r.chance(1, 4);
     let sep = if unhide { "#@#" } else { "##" };
     let body = match r.below(10) {
@@ -124,7 +124,7 @@ fn gen_rule(r: &mut Rng) -> String {
     format!("{}{}{}", locs.join(","), sep, body)
 }
 
-fn gen_rules(r: &mut Rng) -> Vec<String> {
+fn gen_rules(r: &mut Rng, page: &str) -> Vec<String> {
     let n = r.range(1, 10);
     let mut v: Vec<String> = vec![];
     for _ in 0..n {
@@ -132,12 +132,17 @@ fn gen_rules(r: &mut Rng) -> Vec<String> {
             let d = v[r.below(v.len())].clone();
             v.push(d);
         }
-        v.push(gen_rule(r));
+        v.push(gen_rule(r, page));
     }
     if r.chance(1, 3) {
-        let ph = r.pick(HOSTS);
+        let ph = if r.chance(2, 3) { page } else { r.pick(HOSTS) };
         let h = if r.chance(1, 2) { ph.to_string() } else { label_cut(r, ph) };
-        v.push(format!("@@||{}^$generichide", h));
+        // NetworkFilter::parse strips a leading "www." from hostname-anchored rules (network
+        // matching is C02's subject): keep the generichide hosts free of it
+        let h = h.trim_start_matches("www.").to_string();
+        if !h.is_empty() {
+            v.push(format!("@@||{}^$generichide", h));
+        }
     }
     v
 }
@@ -305,7 +310,8 @@ fn reference(lines: &[String], host: &str, dom: &str) -> Expected {
         match parse_filter(l, false, Default::default()) {
             Ok(ParsedFilter::Network(_)) => {
                 if let Some(h) = l.strip_prefix("@@||").and_then(|x| x.strip_suffix("^$generichide")) {
-                    if host == h || host.ends_with(&format!(".{}", h)) {
+                    let h = to_ascii(h).unwrap_or_default();
+                    if !h.is_empty() && (host == h || host.ends_with(&format!(".{}", h))) {
                         gh = true;
                     }
                 }
@@ -578,7 +584,7 @@ fn run_case(lines: &[String], url: &str) -> Option<Run> {
         nk = d.hide.len() + d.unhide.len() + d.inject_script.len() + d.uninject_script.len() + d.procedural_action.len() + d.procedural_action_exception.len()
     );
     let e_res = format!(
-        "resources_eqb (hostname_cosmetic_resources {h} {uw} (build_cache {h} {uw} {rules}) {host} {dom} {gh}) {hide} {proc_} {exc} {scr} {gh}",
+        "resources_eqb (hostname_cosmetic_resources {h} (build_cache {h} {uw} {rules}) {host} {dom} {gh}) {hide} {proc_} {exc} {scr} {gh}",
         h = hfun, uw = uwf, rules = rules_coq, host = hxs(&host), dom = hxs(&dom), gh = cbool(res.generichide),
         hide = cstrs(&sets(&res.hide_selectors)), proc_ = cstrs(&sets(&res.procedural_actions)),
         exc = cstrs(&sets(&res.exceptions)), scr = cstrs(&present)
@@ -632,8 +638,8 @@ fn main() {
     // every host of the universe once for the label functions, then random cases
     let n = 500 * a.scale;
     for i in 0..n {
-        let rules = gen_rules(&mut r);
         let host = if i < HOSTS.len() { HOSTS[i].to_string() } else { gen_page_host(&mut r) };
+        let rules = gen_rules(&mut r, &host);
         let url = format!("https://{}/page", host);
         let Some(run) = run_case(&rules, &url) else { cs.stat("url_error"); continue };
         sm.oracle_evaluations += 2;
